@@ -624,6 +624,10 @@ func judgeNamedURI(c NamedCase, lines []line, reqs []string) (refused, served, m
 // failure when the invocation ends early; the clean 200 samples of a step are exactly its requests the target received.
 func judgeNamedScenario(c NamedCase, lines []line, reqs []string) (refused, served int, err error) {
 	var groups [][]line
+	for i := range lines {
+		// "sc.s0|__EMPTY__": scenario name . step name, then the tags of the request (none)
+		lines[i].tag, _, _ = strings.Cut(lines[i].tag, "|")
+	}
 	for _, l := range lines {
 		if l.tag == "sc.s0" || len(groups) == 0 {
 			groups = append(groups, nil)
